@@ -310,7 +310,17 @@ def t_noglobal(ck, ctx, prop):
                             if p:
                                 handles[full] = p
     if "ply.yacc.yacc" not in handles or "ply.lex.lex" not in handles:
-        raise AnalysisError("anchor vanished: yacc.yacc(...) / lex.lex(...) results are not stored on self")
+        found = [(f, n, full) for f in parser_family_funcs(ctx) for n in ast.walk(f.node) if isinstance(n, ast.Call)
+                 for full in [_ply_full(m, f, n)] if full in ("ply.yacc.yacc", "ply.lex.lex")]
+        if not found:
+            raise AnalysisError("anchor vanished: no yacc.yacc(...) / lex.lex(...) call in the parser classes")
+        for f, n, full in found:
+            if full not in handles:
+                ck.ob("T-NOGLOBAL.handle", f"{f.qual}:{full} stored on self", False,
+                      f"the object returned by {full}(...) is not bound directly to an attribute of this parser object (cached on "
+                      "the class / module, copied, or shared): parser objects would share PLY state, including the bound action methods",
+                      f.loc(n))
+        return handles.get("ply.yacc.yacc"), handles.get("ply.lex.lex")
     yacc_attr, lex_attr = handles["ply.yacc.yacc"], handles["ply.lex.lex"]
     # (2) no use of PLY's module-level (last-built) entry points
     n_parse = 0
@@ -386,6 +396,15 @@ def t_noglobal(ck, ctx, prop):
                   "a mutable class-level value is shared by all parser objects",
                   f"{c.module.path}:{node.lineno}")
     return yacc_attr, lex_attr
+
+
+def _ply_full(m, f, call):
+    d = dotted(call.func)
+    if not d:
+        return None
+    head = d.split(".")[0]
+    r = m.resolve_symbol(f.module, head)
+    return (r[1] + d[len(head):]) if r and r[0] == "ext" else d
 
 
 def _is_local(f, name):
@@ -654,6 +673,12 @@ def _is_set_expr(e):
     if isinstance(e, (ast.Set, ast.SetComp)):
         return True
     if isinstance(e, ast.Call) and isinstance(e.func, ast.Name) and e.func.id in ("set", "frozenset"):
+        return True
+    if isinstance(e, ast.BinOp) and isinstance(e.op, (ast.Sub, ast.BitOr, ast.BitAnd, ast.BitXor)) and (
+            _is_set_expr(e.left) or _is_set_expr(e.right)):
+        return True
+    if isinstance(e, ast.Call) and isinstance(e.func, ast.Attribute) and e.func.attr in (
+            "union", "intersection", "difference", "symmetric_difference") and _is_set_expr(e.func.value):
         return True
     return False
 
